@@ -183,6 +183,9 @@ def main():
         cov["bounded_harnesses"] += r.get("bounded", [])
         cov["units"].append({k: r.get(k) for k in ("kind", "name", "obligations", "discharged", "smt_time_s", "wall_s", "verified_functions", "backend", "rlimit", "note", "isolated_runs", "lemmas") if k in r})
     cov["trusted_base"] = sorted(set(cov["trusted_base"]))
+    n_cbmc = sum((h.get("cbmc_checks") or 0) for h in cov["bounded_harnesses"])
+    if n_cbmc:
+        cov["bounded_cbmc_checks"] = n_cbmc
     if cfg.get("explanation"):
         cov["explanation"] = cfg["explanation"]
     cov["known_findings_reported"] = [k["obligation"] for k, _ in known_hits]
@@ -192,7 +195,7 @@ def main():
     evidence["violations"] = len(real)
     evidence["wall_s"] = round(time.time() - t0, 2)
     # the proof level needs obligations == discharged; a run with known findings or bounded parts says so
-    if cov["obligations"] == 0:
+    if cov["obligations"] == 0 and not any(h.get("result") == "no violation up to the bound" for h in cov["bounded_harnesses"]):
         undecided.append({"what": "no obligation was generated (vacuity guard)"})
     json.dump(evidence, open(os.path.join(EVID, pid + ".json"), "w"), indent=1)
 
